@@ -957,8 +957,10 @@ class WatParser(RecursiveDescentParser):
         return tok.val
 
     def _at_id(self):
-        x = self.look_ahead(0).val
-        return is_id(x)
+        tok = self.look_ahead(0)
+        # A string such as "$abc" (e.g. the content of a passive data
+        # segment) is not an identifier.
+        return tok.typ != "string" and is_id(tok.val)
 
     def _at_ref(self):
         x = self.look_ahead(0).val
